@@ -347,6 +347,8 @@ def run(prog, chk):
     from .server_common import parser_entry_resets
     from .c16 import look_behind
     look_behind(prog, chk, "C15.k", ("Json.cpp",))
+    from .server_common import block_reads_on_cursor
+    block_reads_on_cursor(prog, chk, "C15.m", "Json::Private", "Json.cpp")
     parser_entry_resets(prog, chk, "C15.j", "Json::Private", "Json.cpp")
 
 
